@@ -35,7 +35,7 @@ RULE = (
     "(world digest, scenario digest, tape digest)."
 )
 TIERS = {
-    "quick": {"runs": 120, "budget_s": 45, "min_runs": 4, "run_timeout_s": 240},
+    "quick": {"runs": 120, "budget_s": 60, "min_runs": 4, "run_timeout_s": 240},
     "thorough": {"runs": 8000, "budget_s": 800, "min_runs": 40, "run_timeout_s": 600},
 }
 COMPONENTS_REAL = [
